@@ -345,10 +345,20 @@ func stressEvictMax(r *hx.Run, f []string) {
 				base = rng.Range(1, 1000)
 				st.Evict(base - 1)
 			}
+			// the events of every second slot are requested beforehand; the others are requested by two goroutines WHILE the
+			// evictors run (no event of such a slot exists yet: an EvictionEvent that creates it after the slot was evicted
+			// hands out an event that never triggers)
 			events := make([]reactive.Event, evictors+2)
 			for s := range events {
-				events[s] = st.EvictionEvent(base + s)
+				if s%2 == 0 || s == evictors+1 {
+					events[s] = st.EvictionEvent(base + s)
+				}
 			}
+			type req struct {
+				slot int
+				ev   reactive.Event
+			}
+			racing := make([][]req, 2)
 			slots := make([]int, evictors)
 			for k := range slots {
 				slots[k] = base + k + 1
@@ -366,18 +376,44 @@ func stressEvictMax(r *hx.Run, f []string) {
 					st.Evict(slot)
 				}()
 			}
+			for q := range racing {
+				qr, _ := rng.Fork()
+				ready.Add(1)
+				wg.Add(1)
+				go func() {
+					defer wg.Done()
+					ready.Done()
+					<-start
+					for c := 0; c < 3; c++ {
+						s := base + 1 + 2*qr.Intn((evictors+1)/2) // an odd offset: not requested beforehand
+						racing[q] = append(racing[q], req{s, st.EvictionEvent(s)})
+					}
+				}()
+			}
 			ready.Wait()
 			close(start)
 			wg.Wait()
 			last := st.LastEvictedSlot()
 			var parts []string
 			problem := ""
+			for _, rs := range racing {
+				for _, rq := range rs {
+					if rq.ev.WasTriggered() != (rq.slot <= last) && problem == "" {
+						problem = fmt.Sprintf("EvictionEvent(%d), called while the slots %d..%d were being evicted, handed out an event with triggered=%v after all calls have returned (LastEvictedSlot() = %d)",
+							rq.slot, base+1, base+evictors, rq.ev.WasTriggered(), last)
+					}
+					parts = append(parts, fmt.Sprintf("%d:%d", rq.slot-base, b2i(rq.ev.WasTriggered())))
+				}
+			}
 			if last != base+evictors {
 				problem = fmt.Sprintf("LastEvictedSlot() is %d after concurrent Evict calls for the slots %d..%d have all returned", last, base+1, base+evictors)
 			}
 			probe := st.EvictionEvent(base + evictors) // an evicted slot: must be answered with a triggered event
 			all := append(append([]reactive.Event{}, events...), probe)
 			for s, ev := range all {
+				if ev == nil {
+					continue
+				}
 				slot := base + s
 				if s == len(events) {
 					slot = base + evictors
